@@ -446,8 +446,11 @@ pub fn mutate(c: &MalCase) -> Vec<u8> {
             s.extend_from_slice(&c.junk);
         }
         4 => {
+            // a backslash followed by two characters that are not both hex digits (sign characters, 'x', spaces, ...)
+            const BAD: [&[u8]; 16] = [b"\\zq", b"\\+5", b"\\5+", b"\\-1", b"\\0x", b"\\x0", b"\\ 5", b"\\5 ", b"\\g0", b"\\0g", b"\\+a", b"\\a+", b"\\.5", b"\\5.", b"\\_f", b"\\f_"];
             let i = vp(c.pos);
-            s.splice(i..i, b"\\zq".iter().copied());
+            let bad = BAD[c.junk.first().copied().unwrap_or(0) as usize % BAD.len()];
+            s.splice(i..i, bad.iter().copied());
         }
         5 => {
             // backslash + one hex digit right before a closing parenthesis / end
